@@ -417,6 +417,7 @@ COST_FAMILIES = ["Memmem", "StartBytesOne", "StartBytesTwo", "StartBytesThree", 
                  "RareBytesThree", "Packed", "standard-RareBytesTwo", "none-akb", "none-fib", "none-nested",
                  "none-periodic", "ci-trie",
                  "overlap-RareBytesOne", "overlap-RareBytesTwo", "overlap-StartBytesTwo", "overlap-none-akb",
+                 "overlap-Memmem", "overlap-StartBytesOne", "overlap-StartBytesThree", "overlap-RareBytesThree",
                  "overlap-none-nested", "stream-none-akb", "stream-none-nested", "stream-StartBytesTwo",
                  "stream-RareBytesOne"]
 COST_STAGE_QUICK = {"kind": "callgrind", "name": "cost", "families": COST_FAMILIES, "sizes": [16384, 32768, 65536]}
@@ -439,14 +440,14 @@ PROPS.update({
                 "OverlappingState / one stream iterator. The hook's work limit (4*len+64) turns a non-terminating "
                 "failure loop into a panic that is reported as a violation. Non-trivial: a call that took at least one "
                 "transition. Second stage 'cost' (added after a seeded change made a prefilter rescan the haystack from "
-                "offset 0 on every call, which the transition counters cannot see): for 23 cost families (one per "
+                "offset 0 on every call, which the transition counters cannot see): for 27 cost families (one per "
                 "prefilter variant incl. standard semantics, plus a^k b, Fibonacci, nested-suffix, periodic and "
                 "case-insensitive tries without prefilter; 'overlap-*' = stepwise overlapping search to exhaustion, "
                 "'stream-*' = stream_find_iter with a 61-byte spare buffer) the whole search of one searcher runs under "
                 "`valgrind --tool=callgrind --toggle-collect=*cost_probe_measured*`, giving the exact instruction count "
                 "of that search (independent of machine load). Haystacks have no candidate byte in their first half and "
                 "a false candidate every few bytes afterwards. Relations: cost(2n) <= 2.5*cost(n)+50k for n = 16K, 32K "
-                "(64K, 128K thorough); cost of a span behind an 8 MiB candidate-free prefix, and of a span followed by an "
+                "(64K, 128K thorough), and again for n = 16K with the two halves swapped (candidate-free tail); cost of a span behind an 8 MiB candidate-free prefix, and of a span followed by an "
                 "8 MiB candidate-free suffix, <= 1.5*cost of the sub-slice + 100k.",
         "assumptions": COMMON_ASSUMPTIONS[1:] + [
             "counters are incremented at the three next_state call sites of the generic search loops and in the "
@@ -455,7 +456,7 @@ PROPS.update({
             "the cost stage needs valgrind's callgrind tool (present in this image) and measures find_iter on the contiguous NFA only"],
         "stages": {"quick": NATIVE + [COST_STAGE_QUICK], "thorough": NATIVE + [COST_STAGE_THOROUGH]},
         "floors": {"quick": {"evaluations": 50_000, "distinct_nontrivial": 20_000, "transitions_observed": 50_000_000,
-                             "cost_measurements": 120, "cost_relations_checked": 80,
+                             "cost_measurements": 180, "cost_relations_checked": 110,
                              "failures_observed": 20_000_000, "calls_with_heavy_failure_traffic": 3000,
                              "stream_iterators_measured": 2000, "stream_rolls_observed": 5_000_000, "family_a^k_b": 150, "family_fibonacci": 150,
                              "family_nested_suffixes": 150},
